@@ -77,6 +77,22 @@ def pp_ctx_ty(fn):
     return CTXT
 
 
+def xor_pairs(fn):
+    """{field: key component} - which component of private_ctx_xor_keys' result masks which Context field
+    (None when it cannot be read off the operand)."""
+    out = {}
+    fl = vf.get_flow(fn)
+    for s, flds, _r in _xor_sites(fn):
+        rhs = s["r"]["r"]
+        idx = {x[2] for x in vf.producers(fn, rhs) if x[0] == "field" and x[1] == "()"}
+        if len(idx) != 1:
+            idx2 = {x[2] for x in fl.of_operand(rhs) if x[0] == "field" and x[1] == "()"}
+            idx = idx2 if len(idx2) == 1 else set()
+        for f_ in flds:
+            out[f_] = next(iter(idx)) if len(idx) == 1 else None
+    return out
+
+
 def xor_masked_fields(fn):
     out = set()
     for _s, flds, _r in _xor_sites(fn):
@@ -106,6 +122,12 @@ def run(ctx):
                 if not held:
                     run.finding(Finding(R1, sv.id, "Context.%s is a secret key stored without the XOR mask" % fld, site=sv.loc(),
                                         detail="save masks %s; get unmasks %s" % (sorted(ms), sorted(mg))))
+            ps, pg = xor_pairs(sv), xor_pairs(gt)
+            if all(v is not None for v in list(ps.values()) + list(pg.values())):
+                h = ps == pg and len(set(ps.values())) == len(ps)
+                run.instance(R1, {"obligation": "each field is unmasked with the key component it was masked with, one component per field", "save": ps, "get": pg}, held=h)
+                if not h:
+                    run.finding(Finding(R1, gt.id, "save/get_private_context pair the mask keys with the fields differently (%s vs %s)" % (sorted(ps.items()), sorted(pg.items())), site=gt.loc()))
             held = ms == mg
             run.instance(R1, {"obligation": "save and get mask the same field set", "save": sorted(ms), "get": sorted(mg)}, held=held)
             if not held:
